@@ -17,6 +17,9 @@ CHECK = {
     "bounds": {"quick": {"deviations": 2}, "thorough": {"deviations": 2}},
     "parts": [
         {"name": "scoring", "harness": "c17_scoring", "flavour": "rel",
+         # reads SimpleCalo's per-stream store (its public accessor energy_deposition<M>(StreamId)
+         # is a template defined in SimpleCalo.cc without instantiation: not linkable)
+         "cflags": ["-fno-access-control"],
          "shards": {"quick": 16, "thorough": 16}, "deadline": {"quick": 100, "thorough": 1200}},
     ],
 }
